@@ -136,7 +136,7 @@ def describe(ast, maxlen=400):
     parts = []
     for f in ast["factors"]:
         if f["kind"] == "basic":
-            parts.append("%s=%s" % (f["name"], "/".join(n if w == 1 else "%s*%d" % (n, w) for n, w in f["levels"])))
+            parts.append("%s=%s" % (f["name"], "/".join(("%r" % (n,) if not isinstance(n, str) else n) if w == 1 else "%s*%d" % (n, w) for n, w in f["levels"])))
         elif f["kind"] == "derived":
             w = f["window"]
             parts.append("%s=%s[w%d,s%d,st%s](%s)->%s" % (f["name"], w["kind"], w["width"], w["stride"], w["start"],
